@@ -171,6 +171,22 @@ def unmarshalIPNet (cidr : Option IPNet) (ip : Option Bytes) : Unm :=
       | none => .ok ⟨ip, cidrMask 128 16⟩
     | none => .err
 
+/-- spec for the glue, on the implementation's answer: the stored network must denote the same
+(network number, mask) pair — hence contain the same client addresses — as what `net.ParseCIDR`
+returned, resp. the single parsed address.  `none` = conforms. -/
+def specIPNet (cidr : Option IPNet) (ip : Option Bytes) (impl : Unm) : Option String :=
+  match cidr, ip, impl with
+  | some c, _, .ok n =>
+    if networkNumberAndMask n = networkNumberAndMask c then none
+    else some "stored network is not equivalent to the parsed CIDR"
+  | none, some a, .ok n =>
+    if networkNumberAndMask n = networkNumberAndMask ⟨a, cidrMask (8 * a.length) a.length⟩ then none
+    else some "stored network is not the single parsed address"
+  | none, none, .err => none
+  | _, _, .err => some "parsable IP/CIDR rejected"
+  | none, none, .ok _ => some "unparsable IP/CIDR accepted"
+  | _, _, .panic => some "panic"
+
 /-! ### authenticateWithUser / authenticateInternal / Authenticate -/
 
 def credsOK (o : Oracle) (u : User) (r : Req) : Bool :=
